@@ -1,6 +1,7 @@
 package main
 
 import (
+	"fmt"
 	"crypto/ed25519"
 	"encoding/base64"
 	"time"
@@ -57,7 +58,20 @@ func buildEvent(ver gmsl.RoomVersion, p protoSpec, id *gen.Identity, ts time.Tim
 		Unsigned:   p.Unsigned,
 		Signature:  p.Signatures,
 	})
-	return eb.Build(ts, spec.ServerName(id.Server), gmsl.KeyID(id.KeyID), id.Priv)
+	before := protoSnapshot(p, prev, auth)
+	ev, err := eb.Build(ts, spec.ServerName(id.Server), gmsl.KeyID(id.KeyID), id.Priv)
+	if after := protoSnapshot(p, prev, auth); after != before && onProtoMutated != nil {
+		onProtoMutated(fmt.Sprintf("Build (v%s) rewrote the proto-event it was given:\n before %s\n after  %s", ver, before, after))
+	}
+	return ev, err
+}
+
+// onProtoMutated is told when Build changed what the caller handed it (the lists and raw JSON of a proto-event are the
+// caller's; the next Build from the same proto-event has to see what the first one saw).
+var onProtoMutated func(detail string)
+
+func protoSnapshot(p protoSpec, prev, auth []string) string {
+	return fmt.Sprintf("prev=%q auth=%q content=%q unsigned=%q signatures=%q", prev, auth, p.Content, p.Unsigned, p.Signatures)
 }
 
 // refEventSigValid is the independent event-signature check: ed25519 over
